@@ -31,17 +31,37 @@ class ExprCondModel(ExprModel):
         self.false_e = false_e
         
     def build(self, btor, ctx_width=-1):
+        width = self.width()
+        if ctx_width > width:
+            width = ctx_width
+        
         cond_n = self.cond_e.build(btor)
-        true_n = self.true_e.build(btor)
-        false_n = self.false_e.build(btor)
+        if cond_n.width > 1:
+            cond_n = btor.Ne(cond_n, btor.Const(0, cond_n.width))
+        
+        # Both alternatives must have the same width
+        true_n = self.true_e.build(btor, width)
+        if true_n.width < width:
+            if self.true_e.is_signed():
+                true_n = btor.Sext(true_n, width-true_n.width)
+            else:
+                true_n = btor.Uext(true_n, width-true_n.width)
+        false_n = self.false_e.build(btor, width)
+        if false_n.width < width:
+            if self.false_e.is_signed():
+                false_n = btor.Sext(false_n, width-false_n.width)
+            else:
+                false_n = btor.Uext(false_n, width-false_n.width)
         
         return btor.Cond(cond_n, true_n, false_n)
     
     def is_signed(self):
-        return self.true_e.signed or self.false_e.signed
+        return self.true_e.is_signed() and self.false_e.is_signed()
     
     def width(self):
-        return 0
+        true_w = self.true_e.width()
+        false_w = self.false_e.width()
+        return true_w if true_w > false_w else false_w
         
     def accept(self, visitor):
         visitor.visit_expr_cond(self)
